@@ -56,4 +56,7 @@ AccumulationExact ==
 SameOperator == AllExact(m) => MatrixBackupNum(m, V) = BackupNum(m, V)
 RowsSumToOne == (phase = "built" /\ outcome = "ok" /\ tol[1] = 0) => AllExact(m)
 ErrorIffDeviation == phase = "built" => (outcome = "error" <=> SomeDeviates(m, tol[1], tol[2]))
+(* the two-scale judgement used for tolerances within 1e-12 of a deviation reduces to the plain one *)
+FineReduces == \A s \in S : \A a \in A :
+                 DeviatesF(m, NoFine(m), s, a, tol[1], tol[2], 0) = Deviates(m, s, a, tol[1], tol[2])
 =============================================================================
